@@ -10,6 +10,7 @@ mod edges;
 mod etf;
 mod frag;
 mod io;
+mod order;
 mod term_json;
 
 #[global_allocator]
@@ -28,6 +29,7 @@ fn main() {
         "etf-random" => etf::run_random(rest),
         "id-twins" => etf::run_id_twins(rest),
         "attack-run" => attack::run(rest),
+        "order-obs" => order::run(rest),
         other => {
             eprintln!("unknown subcommand {other}");
             2
